@@ -49,7 +49,7 @@ from prompt_toolkit.patch_stdout import StdoutProxy
 
 ID = "C20"
 DRIVER = "drv_c20"
-PROPS = ["Ptk.Props.C20", "Ptk.Props.C20Chain", "Ptk.Props.C20ChainLemmas"]
+PROPS = ["Ptk.Props.C20", "Ptk.Props.C20Chain", "Ptk.Props.C20ChainLemmas", "Ptk.Props.C20Lock"]
 SERIAL = False
 LEVEL_TEXT = ("Lean 4 theorems over two executable transition-system models with atomic steps at lock / event-loop "
               "granularity, for ANY number of threads and ANY interleaving (induction over arbitrary step lists): "
@@ -57,8 +57,12 @@ LEVEL_TEXT = ("Lean 4 theorems over two executable transition-system models with
               "hand-off to the application loop, application start/stop, loop close/replace): stream_invariant, "
               "exactly_once_after_flush, write_contiguous, segments_tile, per_thread_order, conservation (all schedules), "
               "inside_bracket / text_never_on_prompt / section_shape, flusher_alive, flush_then_settle_delivers (arrival); "
+              "close_delivers, no_newline_in_buffer; "
               "(b) in_terminal with the _running_in_terminal_f chain and sections open across awaits: chain_mutex, chain_fifo, "
-              "sections_do_not_overlap, prompt_untouched_in_section, section_starts_after_erase. Three schedule windows in "
+              "sections_do_not_overlap, prompt_untouched_in_section, section_starts_after_erase; "
+              "(c) write/flush split into their shared-state steps with the lock as a model variable: lock_mutex, "
+              "lock_stream_invariant, lock_exactly_once, lock_per_thread_order, and a witness that the same code without "
+              "the lock loses text. Three schedule windows in "
               "which the property is FALSE of the current code are refuted on concrete schedules in Lean and replayed on the "
               "real code (known findings K1-K3). Tied to /repo on every run by a differential correspondence (real "
               "StdoutProxy, real threads and a real Application in an asyncio loop thread, driven step by step under "
@@ -75,13 +79,16 @@ RULE = ("proxy: every op sequence up to the tier's length over {write a / b\\n /
         "then seeded random schedules (1-4 threads, up to 60 ops, data with several newlines, ESC, wide chars, raw on/off, "
         "default and create_app_session sessions, close()), half of them adversarial (arbitrary interleaving of stop / "
         "loop close / start) and half calm; chain: every op sequence up to the tier's length over {enter sync, enter open, "
-        "leave 0..2, stop, start, invalidate} + random; soak: free-running writer threads on an unmodified StdoutProxy (no "
-        "application / application throughout / application stopped and restarted on a new loop meanwhile). "
+        "leave 0..2, stop, start, invalidate} + random; lock: random interleavings of up to 4 threads paused inside "
+        "`with self._lock:` (entry of _write/_flush and before they return), incl. calls made while the lock is held "
+        "(must block until the holder leaves); soak: free-running writer threads on an unmodified StdoutProxy (no "
+        "application / application throughout / application stopped and restarted on a new loop between phases), also "
+        "through patch_stdout() + sys.stdout. "
         "non-trivial = a proxy case with a non-empty write and at least one flush-thread step, a chain case with a "
         "section, any soak case")
 EXHAUSTIVE = True
 EXHAUSTIVE_SCOPE = {
-    "quick": "proxy without app: all sequences len<=4 over 6 ops; with app: 5 prefixes x all sequences len<=3 over 8 ops; "
+    "quick": "proxy without app: all sequences len<=3 over 6 ops; with app: 5 prefixes x all sequences len<=2 over 8 ops; "
              "chain: all sequences len<=3 over 8 ops",
     "thorough": "proxy without app: all sequences len<=5 over 6 ops; with app: 5 prefixes x all sequences len<=4 over 8 ops; "
                 "chain: all sequences len<=4 over 8 ops",
@@ -90,12 +97,13 @@ TRUSTED = ["harness/c20.py compares, after every scheduled step, the terminal ev
            "enable_autowrap+write+flush) received by a recording Vt100_Output and Renderer, _buffer, the queue items, the "
            "flush thread's position and locals, accepted-but-not-run callbacks, app/loop state; at the end the output text "
            "and (without application) the exact StringIO content",
-           "Ptk/Model/C20.lean, C20Chain.lean are hand translations of patch_stdout.py / run_in_terminal.py / the parts of "
+           "Ptk/Model/C20.lean, C20Chain.lean, C20Lock.lean are hand translations of patch_stdout.py / run_in_terminal.py / the parts of "
            "application.py they use (correspondence-checked)",
            "the schedule gates (StdoutProxy subclass pausing in _flush_queue.get / _get_app_loop / _write_and_flush; loop "
            "stand-in that forwards call_soon_threadsafe to the real loop at the scheduled step with the context captured at "
            "call time) pause threads only at synchronisation points; they do not change what the code computes"]
-ASSUMPTIONS = ["threading.RLock gives mutual exclusion for write()/flush(); queue.Queue is a linearizable FIFO; the "
+ASSUMPTIONS = ["threading.RLock admits one owner at a time (checked at run time: _is_owned inside _write/_flush, a second "
+               "caller blocks while a thread is paused inside the block); queue.Queue is a linearizable FIFO; the "
                "get()+get_nowait() drain of the flush thread is atomic w.r.t. put()",
                "an asyncio loop runs accepted callbacks in FIFO order, each atomically up to its first real suspension; a "
                "closed loop raises RuntimeError from call_soon_threadsafe and drops what it had accepted",
@@ -103,8 +111,8 @@ ASSUMPTIONS = ["threading.RLock gives mutual exclusion for write()/flush(); queu
                "session) are atomic for the other threads",
                "the Output object is used by one thread at a time (Vt100_Output.write/flush are not thread-safe themselves)",
                "lone surrogates and non-str data are outside the alphabet"]
-PARTIAL_SCOPE = ["real preemption inside a step (e.g. between `self._buffer = [after]` and `put`) is excluded by the lock "
-                 "assumption, not exhibited", "sleep_between_writes only delays; it is 0 in gated runs",
+PARTIAL_SCOPE = ["preemption inside write/flush is modelled only down to the shared-state steps of C20Lock (read buffer, assign "
+                 "buffer, put); the RLock itself, list.append and Queue.put/get are atomic by assumption", "sleep_between_writes only delays; it is 0 in gated runs",
                  "K1: loop closed while it holds accepted callbacks -> text lost (theorems assume `calm`)",
                  "K2: direct write from the flush thread while accepted callbacks wait -> order swapped (`calm`)",
                  "K3: application starts between `_get_app_loop() is None` and the direct write -> text on the drawn "
@@ -363,7 +371,7 @@ class Rig:
             self.session.app = None
         try:
             if gated:
-                self.proxy = GatedProxy(self, sleep_between_writes=sleep, raw=raw)
+                self.proxy = getattr(self, "PROXY", GatedProxy)(self, sleep_between_writes=sleep, raw=raw)
                 self.wait_fl()
             elif via_patch:
                 # the public entry point: `with patch_stdout(): ...`, writers use sys.stdout
@@ -696,6 +704,16 @@ def model_lines(case):
         return ["cinit"] + [op_line(op) for op in case["ops"]]
     if kind == "soak":
         return ["soak %s" % enc_list(ws, enc_str) for ws in case["writes"]]
+    if kind == "lock":
+        out = ["linit"]
+        for op in case["ops"]:
+            if op[0] == "lcall":
+                out.append("lcall %d %s" % (op[1], "w " + enc_str(op[2][1]) if op[2][0] == "w" else "f"))
+            elif op[0] in ("lbody", "lrel"):
+                out.append("%s %d" % (op[0], op[1]))
+            else:
+                out.append(op[0])
+        return out
     raise ValueError(kind)
 
 
@@ -807,6 +825,11 @@ def impl_lines(case):
         _cache.clear()
         _cache[case_key(case)] = rec
         return rec["lines"]
+    if kind == "lock":
+        lines, rec = run_lock_case(case)
+        _cache.clear()
+        _cache[case_key(case)] = rec
+        return lines
     raise ValueError(kind)
 
 
@@ -1089,6 +1112,195 @@ def oracle_chain(case):
     return out
 
 
+# ------------------------------------------------------------------ lock cases (inside write/flush)
+BLOCK_WAIT = float(os.environ.get("VERIF_C20_BLOCKWAIT", "0.25"))
+
+
+class LockProxy(GatedProxy):
+    """pauses inside the `with self._lock:` block: on entry of `_write` / `_flush` and before they return"""
+
+    def _write(self, data):
+        self.rig.lock_enter("w")
+        try:
+            return super()._write(data)
+        finally:
+            self.rig.lock_leave()
+
+    def _flush(self):
+        self.rig.lock_enter("f")
+        try:
+            return super()._flush()
+        finally:
+            self.rig.lock_leave()
+
+
+class LockRig(Rig):
+    PROXY = LockProxy
+
+    def __init__(self):
+        self.inside = []
+        self.acq_order = []
+        self.lk = {}
+        self.hpc = {t: "i" for t in range(4)}
+        for t in range(4):
+            self.lk[t] = {"entered": threading.Event(), "body": threading.Semaphore(0),
+                          "bodydone": threading.Event(), "rel": threading.Semaphore(0)}
+        super().__init__(raw=False, session="default", gated=True)
+
+    def _tid(self):
+        name = threading.current_thread().name
+        return int(name.split("-")[1]) if name.startswith("writer-") else None
+
+    def lock_enter(self, kind):
+        t = self._tid()
+        if t is None or self.free:
+            return
+        self.inside.append(t)
+        if len(self.inside) > 1:
+            self.notes.append("lock-not-exclusive")
+        self.acq_order.append((t, kind))
+        self.lk[t]["entered"].set()
+        if not self.lk[t]["body"].acquire(timeout=TIMEOUT * 6):
+            raise RigTimeout("lock gate")
+
+    def lock_leave(self):
+        t = self._tid()
+        if t is None or self.free or t not in self.inside:
+            return
+        self.lk[t]["bodydone"].set()
+        self.lk[t]["rel"].acquire(timeout=TIMEOUT * 6)
+        self.inside.remove(t)
+
+    def lcall(self, t, call):
+        if self.hpc[t] != "i":
+            return
+        q, done, _ = self.writer(t)
+        done.clear()
+        self.lk[t]["entered"].clear()
+        self.lk[t]["bodydone"].clear()
+        q.put(("w", call[1]) if call[0] == "w" else ("f",))
+        self.hpc[t] = "w"
+        if self.inside:
+            # somebody is inside the lock: this call has to block
+            if self.lk[t]["entered"].wait(BLOCK_WAIT):
+                self.hpc[t] = "l"
+        else:
+            if not self.lk[t]["entered"].wait(TIMEOUT):
+                raise RigTimeout("lock not acquired")
+            self.hpc[t] = "l"
+
+    def lbody(self, t):
+        if self.hpc[t] != "l":
+            return
+        self.lk[t]["body"].release()
+        if not self.lk[t]["bodydone"].wait(TIMEOUT):
+            raise RigTimeout("body")
+        self.hpc[t] = "r"
+
+    def lrel(self, t):
+        if self.hpc[t] != "r":
+            return
+        self.lk[t]["rel"].release()
+        if not self.writers[t][1].wait(TIMEOUT):
+            raise RigTimeout("call did not return")
+        self.hpc[t] = "i"
+        waiters = [u for u in range(4) if self.hpc[u] == "w"]
+        if waiters:
+            t0 = time.time()
+            while time.time() - t0 < TIMEOUT:
+                got = [u for u in waiters if self.lk[u]["entered"].is_set()]
+                if got:
+                    for u in got:
+                        self.hpc[u] = "l"
+                    return
+                time.sleep(0.0005)
+            raise RigTimeout("waiting thread did not get the lock")
+
+    def lock_state(self):
+        p = self.proxy
+        items = [i for i in p._flush_queue.queue if isinstance(i, str)]
+        out = "".join(e[2] for e in emissions(list(self.events)))
+        owner = "N" if not self.inside else "+".join(str(t) for t in self.inside)
+        return "buf=%s q=%s out=%s owner=%s pcs=%s acq=%s" % (
+            enc_str("".join(p._buffer)), enc_list(items, enc_str), enc_str(out), owner,
+            "".join(self.hpc[t] for t in range(4)), enc_list([t for t, k in self.acq_order if k == "w"], str))
+
+    def teardown(self):
+        self.free = True
+        for t in range(4):
+            for _ in range(3):
+                self.lk[t]["body"].release()
+                self.lk[t]["rel"].release()
+        return super().teardown()
+
+
+def run_lock_case(case):
+    rig = LockRig()
+    lines = []
+    rec = {"errors": [], "notes": rig.notes}
+    try:
+        lines.append(rig.lock_state())
+        for op in case["ops"]:
+            k = op[0]
+            if k == "lcall":
+                rig.lcall(op[1], op[2])
+            elif k == "lbody":
+                rig.lbody(op[1])
+            elif k == "lrel":
+                rig.lrel(op[1])
+            elif k == "lfl":
+                rig.settle()
+            else:
+                raise ValueError(op)
+            lines.append(rig.lock_state())
+        rec["out"] = "".join(e[2] for e in emissions(list(rig.events)))
+        rec["acq_order"] = list(rig.acq_order)
+        rec["left"] = ("".join(rig.proxy._buffer), [i for i in rig.proxy._flush_queue.queue if isinstance(i, str) and i],
+                       "".join(rig.hpc[t] for t in range(4)))
+    except RigTimeout as e:
+        rec["errors"].append("timeout: " + str(e))
+        lines.append("timeout:" + str(e))
+    finally:
+        rec["errors"] += rig.teardown()
+    if rec["errors"]:
+        lines.append("errors:" + ";".join(rec["errors"])[:300])
+    return lines, rec
+
+
+def oracle_lock(case):
+    """the calls get the lock one at a time; after the closing flush the output is the write calls in
+    the order in which they got the lock (the order in which the threads entered the block)"""
+    key = case_key(case)
+    rec = _cache.pop(key) if key in _cache else run_lock_case(case)[1]
+    v = []
+    if rec["errors"]:
+        v.append({"signature": SIG_RIG, "msg": "; ".join(rec["errors"])[:400]})
+    if "lock-not-exclusive" in rec["notes"] or any(n.startswith("unlocked") for n in rec["notes"]):
+        v.append({"signature": SIG_LOCK, "msg": "two threads inside write()/flush() at the same time"})
+    if "out" in rec:
+        # data of the calls, per thread in call order; acquisition order as observed on the real lock
+        per = {}
+        for op in case["ops"]:
+            if op[0] == "lcall" and op[2][0] == "w":
+                per.setdefault(op[1], []).append(op[2][1])
+        calls = {}
+        for op in case["ops"]:
+            if op[0] == "lcall":
+                calls.setdefault(op[1], []).append(op[2])
+        idx = {t: 0 for t in calls}
+        expected = ""
+        for t, _kind in rec["acq_order"]:
+            c = calls[t][idx[t]]
+            idx[t] += 1
+            if c[0] == "w":
+                expected += c[1]
+        if case.get("complete") and rec["out"] != expected:
+            v.append({"signature": SIG_STREAM + (" | reordered" if sorted(rec["out"]) == sorted(expected) else " | lost"
+                                                 if len(rec["out"]) < len(expected) else " | duplicated or invented"),
+                      "msg": "output %r, write calls in lock order %r" % (rec["out"], expected)})
+    return v
+
+
 # ------------------------------------------------------------------ soak (free running threads)
 TOKEN_RE = re.compile(r"\[(\d+):(\d+)([^\[\]]*)\]")
 
@@ -1107,30 +1319,43 @@ def run_soak_case(case):
         if mode != "noapp":
             rig.new_loop()
             rig.start_app()
-        for t, ws in enumerate(writes):
-            q, done, _ = rig.writer(t)
-            done.clear()
-        for t, ws in enumerate(writes):
-            rig.writers[t][0].put(("ww", ws))
-        if mode == "startstop":
-            for _ in range(case.get("cycles", 2)):
+        # 'startstop': the writers work in phases; between two phases everything written so far has
+        # arrived, then the application is stopped, its loop closed, and a new application is started
+        # on a new loop.  (Stopping while text is in flight is the subject of the gated cases: the
+        # hand-off windows K1-K3 make the outcome of a free-running stop scheduling dependent.)
+        phases = (case.get("cycles", 2) + 1) if mode == "startstop" else 1
+        for t in range(len(writes)):
+            rig.writer(t)
+        sent = 0
+        for ph in range(phases):
+            chunks = []
+            for t, ws in enumerate(writes):
+                n = len(ws)
+                chunk = ws[ph * n // phases:(ph + 1) * n // phases]
+                chunks.append(chunk)
+                rig.writers[t][1].clear()
+            for t, chunk in enumerate(chunks):
+                rig.writers[t][0].put(("ww", chunk))
+            for t in range(len(writes)):
+                if not rig.writers[t][1].wait(TIMEOUT):
+                    raise RigTimeout("writer")
+            rig.proxy.flush()
+            sent += sum(len(w) for chunk in chunks for w in chunk)
+            # wait until the flush thread has handed everything over and the loop has run it
+            t0 = time.time()
+            while True:
+                got = sum(len(e[2]) for e in emissions(list(rig.events)))
+                if got >= sent and rig.proxy._flush_queue.qsize() == 0:
+                    break
+                if time.time() - t0 > TIMEOUT:
+                    raise RigTimeout("output did not arrive: %d of %d characters" % (got, sent))
                 time.sleep(0.002)
+            if mode == "startstop" and ph + 1 < phases:
+                time.sleep(0.002)      # lets the flush thread return to its blocking get()
                 rig.stop_app()
                 rig.close_loop()
                 rig.new_loop()
                 rig.start_app()
-        for t in range(len(writes)):
-            if not rig.writers[t][1].wait(TIMEOUT):
-                raise RigTimeout("writer")
-        rig.proxy.flush()
-        # wait until the flush thread has handed everything over and the loop has run it
-        total = sum(len(w) for ws in writes for w in ws)
-        t0 = time.time()
-        while time.time() - t0 < TIMEOUT:
-            got = sum(len(e[2]) for e in emissions(list(rig.events)))
-            if got >= total and rig.proxy._flush_queue.qsize() == 0:
-                break
-            time.sleep(0.002)
         if mode != "noapp":
             rig.stop_app()
         rec["timeline"] = list(rig.events)
@@ -1170,29 +1395,21 @@ def oracle_soak(case):
     writes = case["writes"]
     toks = [m.group(0) for m in TOKEN_RE.finditer(out)]
     want = [w for ws in writes for w in ws if w]
-    across = rec["mode"] == "startstop"
     if not rec["tiled"]:
         v.append({"signature": SIG_STREAM + " | split", "msg": "output is not a sequence of whole write calls: %r" % out[:300]})
     if sorted(toks) != sorted(want):
         missing = [w for w in want if w not in toks]
         dup = [w for w in set(toks) if toks.count(w) > 1]
-        if across and missing and not dup:
-            # free running across application stop / loop close: the only known way to lose text is the
-            # window of SIG_K1 (the harness cannot observe the loop's ready queue here)
-            sig = SIG_K1
-        else:
-            sig = SIG_STREAM + (" | lost" if missing else " | duplicated or invented")
+        sig = SIG_STREAM + (" | lost" if missing else " | duplicated or invented")
         v.append({"signature": sig, "msg": "missing %r duplicated %r" % (missing[:5], dup[:5])})
     else:
         for t, ws in enumerate(writes):
             mine = [x for x in toks if x.startswith("[%d:" % t)]
             if mine != [w for w in ws if w]:
-                v.append({"signature": SIG_K2 if across else SIG_STREAM + " | reordered",
-                          "msg": "thread %d: %r" % (t, mine[:6])})
+                v.append({"signature": SIG_STREAM + " | reordered", "msg": "thread %d: %r" % (t, mine[:6])})
                 break
-    if rec["mode"] in ("noapp", "app"):
-        for sig, msg in check_bracket([e for e in rec["timeline"]]):
-            v.append({"signature": sig, "msg": msg})
+    for sig, msg in check_bracket([e for e in rec["timeline"]]):
+        v.append({"signature": sig, "msg": msg})
     seen, res = set(), []
     for x in v:
         if x["signature"] not in seen:
@@ -1209,6 +1426,8 @@ def oracle(case):
         return oracle_chain(case)
     if kind == "soak":
         return oracle_soak(case)
+    if kind == "lock":
+        return oracle_lock(case)
     raise ValueError(kind)
 
 
@@ -1330,6 +1549,66 @@ def random_chain(rng, nops):
     return {"kind": "chain", "session": rng.choice(["default", "custom"]), "ops": ops}
 
 
+def lock_case(rng, nops, contention):
+    """calls of up to 4 threads interleaved inside the lock; at most one thread waits for the lock at a
+    time and at most `contention` calls are made while the lock is held (each costs BLOCK_WAIT)"""
+    pc = {t: "i" for t in range(4)}
+    holder = None
+    ops = []
+
+    def do(op):
+        nonlocal holder
+        ops.append(op)
+        k = op[0]
+        if k == "lcall":
+            t = op[1]
+            if holder is None:
+                pc[t], holder = "l", t
+            else:
+                pc[t] = "w"
+        elif k == "lbody":
+            pc[op[1]] = "r"
+        elif k == "lrel":
+            pc[op[1]] = "i"
+            holder = None
+            for u in range(4):
+                if pc[u] == "w":
+                    pc[u], holder = "l", u
+                    break
+
+    def call(t):
+        if rng.random() < 0.2:
+            return ["lcall", t, ["f"]]
+        return ["lcall", t, ["w", rng.choice(["a", "b\n", "c\nd", "", "xy", "\n", "e\n\nf"])]]
+
+    for _ in range(nops):
+        choices = []
+        idle = [t for t in range(4) if pc[t] == "i"]
+        waiting = [t for t in range(4) if pc[t] == "w"]
+        if idle and (holder is None or (not waiting and contention > 0)):
+            choices += ["call"] * 3
+        if holder is not None:
+            choices += ["step"] * 4
+        choices += ["fl"]
+        c = rng.choice(choices)
+        if c == "call":
+            if holder is not None:
+                contention -= 1
+            do(call(rng.choice(idle)))
+        elif c == "step":
+            do(["lbody", holder] if pc[holder] == "l" else ["lrel", holder])
+        else:
+            do(["lfl"])
+    # let everybody finish, flush, drain
+    while holder is not None:
+        do(["lbody", holder] if pc[holder] == "l" else ["lrel", holder])
+    do(["lcall", 0, ["f"]])
+    do(["lbody", 0])
+    do(["lrel", 0])
+    do(["lfl"])
+    return {"kind": "lock", "ops": ops, "complete": True}
+
+
 def soak_case(rng, mode, via="proxy"):
     nthreads = rng.choice([2, 3, 4, 6])
     writes = []
@@ -1348,15 +1627,17 @@ def soak_case(rng, mode, via="proxy"):
 
 def cases(tier, rng):
     quick = tier == "quick"
-    yield from exhaustive_noapp(4 if quick else 5)
-    yield from exhaustive_app(3 if quick else 4)
+    yield from exhaustive_noapp(3 if quick else 5)
+    yield from exhaustive_app(2 if quick else 4)
     yield from exhaustive_chain(3 if quick else 4)
-    for _ in range(400 if quick else 4000):
+    for _ in range(300 if quick else 4000):
         yield random_proxy(rng, rng.choice([5, 10, 20, 40]))
-    for _ in range(300 if quick else 3000):
+    for _ in range(200 if quick else 3000):
         yield random_calm_proxy(rng, rng.choice([10, 30, 60]))
-    for _ in range(200 if quick else 4000):
+    for _ in range(150 if quick else 4000):
         yield random_chain(rng, rng.choice([4, 8, 16]))
+    for i in range(8 if quick else 80):
+        yield lock_case(rng, rng.choice([6, 12, 24]), rng.choice([0, 1, 1, 2]))
     if not quick:
         for i in range(240):
             yield soak_case(rng, ["noapp", "app", "startstop"][i % 3])
@@ -1375,6 +1656,8 @@ def nontrivial(case):
         return any(op[0] == "w" and op[2] for op in case["ops"]) and any(op[0] == "fl" or op[0] == "settle" for op in case["ops"])
     if k == "chain":
         return any(op[0] == "center" for op in case["ops"])
+    if k == "lock":
+        return any(op[0] == "lcall" and op[2][0] == "w" and op[2][1] for op in case["ops"])
     return True
 
 
@@ -1387,6 +1670,12 @@ def distribution(cases_):
         if k == "soak":
             n = len(c["writes"])
             d["threads"][str(n)] = d["threads"].get(str(n), 0) + 1
+            continue
+        if k == "lock":
+            ts = {op[1] for op in c["ops"] if op[0] == "lcall"}
+            d["threads"][str(len(ts))] = d["threads"].get(str(len(ts)), 0) + 1
+            for op in c["ops"]:
+                d["ops"][op[0]] = d["ops"].get(op[0], 0) + 1
             continue
         ts = {op[1] for op in c["ops"] if op[0] in ("w", "f")}
         d["threads"][str(len(ts))] = d["threads"].get(str(len(ts)), 0) + 1
